@@ -6,7 +6,9 @@ set -u
 cd "$(dirname "$0")"
 TIER="${1:-quick}"; REPLAY="${2:-}"
 SEED="${VERIF_SEED:-1}"
-mkdir -p target replays/C18 evidence
+EVDIR="${VERIF_EVIDENCE_DIR:-/verif/evidence}"
+export EVDIR
+mkdir -p target replays/C18 "$EVDIR"
 T0=$(date +%s.%N)
 write_static_violation_evidence() {
 python3 - "$1" "$TIER" "$SEED" "$T0" <<'PY'
@@ -17,7 +19,8 @@ ev={"property_id":"C18","tier":tier,"seed":seed,"level":"exploration","wall_s":t
  "coverage":{"evaluations":17,"distinct_nontrivial":17,"rule":"17 auto-trait obligations (Send/Sync of RuleSet, Rule, Expr, Index, Value, Symbols, Error; Send of the futures of Expr::evaluate, RuleSet::evaluate_value, RuleSet::evaluate::<T: Sync>) compiled by rustc; the dynamic half did not run because the type-level half failed",
  "samples":lines or ["compiler log: "+log],"static_obligations":17,"static_obligations_holding":"not all","compiler_log":log},
  "assumptions":["rustc decides the auto-trait obligations"]}
-json.dump(ev,open('/verif/evidence/C18.json','w'),indent=1)
+import os
+json.dump(ev,open(os.environ['EVDIR']+'/C18.json','w'),indent=1)
 PY
 }
 is_autotrait_failure() {
@@ -81,7 +84,8 @@ fi
 python3 - "$TIER" "$MIRI_NOTE" "$MIRI_SEEDS" "$T0" "$RC" <<'PY'
 import json,sys,time
 tier,note,seeds,t0,rc=sys.argv[1],sys.argv[2],int(sys.argv[3]),float(sys.argv[4]),int(sys.argv[5])
-p='/verif/evidence/C18.json'
+import os
+p=os.environ['EVDIR']+'/C18.json'
 ev=json.load(open(p))
 ev['coverage']['static_obligations']=17
 ev['coverage']['static_obligations_holding']=17
